@@ -168,6 +168,32 @@ Definition c02_rto_armed (c : vconfig) (st : fstep) : bool :=
   | _, _ => true
   end.
 
+(* no silent stall: after a Pending poll with a writable transport, a segment that was cut but never sent,
+   with nothing of ours in flight, no loss recovery and both windows wide enough for it, does not sit there
+   with the retransmission timer off - either it went out in this poll or a timer is left that will send it *)
+Definition first_unsent (l : list fseg) : option fseg :=
+  find (fun g => (fg_sent_kind g =? 0) && negb (fg_delivered g)) l.
+
+Definition c02_no_silent_stall (c : vconfig) (st : fstep) : bool :=
+  match fs_event st, fs_result st with
+  | FePoll _, FrPoll PollPending _ _ _ =>
+      let f := fs_post st in
+      if negb (f_transport_pending f) && negb (is_remote_fin_or_later (f_state f)) &&
+         match f_state f with SynReceived | SynAckSent _ | Closed => false | _ => true end &&
+         negb (outstanding f) &&
+         match f_recovery f with Recovering _ => false | _ => true end
+      then
+        match first_unsent (f_segs f) with
+        | Some g =>
+            if (fg_size g <=? f_last_remote_window f) && (fg_size g <=? f_cc_window f)
+            then match f_t_retransmit f with Some _ => true | None => false end
+            else true
+        | None => true
+        end
+      else true
+  | _, _ => true
+  end.
+
 (* D14 classifier: the poll popped an expired MTU probe (max_ss lowered) and turned the
    retransmission timer off although other segments are still outstanding *)
 Definition c02_d14_class (c : vconfig) (st : fstep) : bool :=
